@@ -109,6 +109,12 @@ class Ctx:
                 b["file"] = f
             return v["bad"], n
         bad, events = [], 0
+        # every TLC may grow to a quarter of the RAM: fewer at a time when the traces are large
+        biggest = max([os.path.getsize(f) for f in files] or [0])
+        if biggest > 400 << 20:
+            par = min(par, 2)
+        elif biggest > 100 << 20:
+            par = min(par, 4)
         with ThreadPoolExecutor(max_workers=par) as ex:
             for b, n in ex.map(one, list(enumerate(files))):
                 bad += b
